@@ -542,8 +542,9 @@ pub fn generate(prop: &str, seed: u64) -> W1Scn {
     // C07, rarely: a long history of mostly passive orders, so that the snapshot file passes 1 MiB (buffered / chunked
     // readers and writers) before it is written, reloaded and driven on
     let big_file = prop == "C07" && r.chance(0.0008);
+    // (up to 9000 operations: the order table passes 4096 records in the longer ones)
     let len = if big_file {
-        r.range(3000, 6500)
+        r.range(3000, 9000)
     } else if r.chance(0.8) {
         r.range(3, 40)
     } else {
